@@ -268,23 +268,31 @@ EXAMPLE_RE = re.compile(r"^example\b", re.M)
 NS_RE = re.compile(r"^namespace\s+(\S+)", re.M)
 
 
-def lean_prove(ctx, module, drivers=(), extra_modules=()):
-    """Build the property's theorem module (+ drivers), audit axioms of every theorem in it,
-    count obligations.  Returns True when everything is discharged."""
-    targets = [module] + list(extra_modules) + list(drivers)
+def lean_prove(ctx, module, drivers=(), extra_modules=(), more_props=()):
+    """Build the property's theorem module (+ drivers), audit axioms of every theorem in it (and in each
+    module of `more_props`: further property-level theorem files of the same property), count
+    obligations.  Returns True when everything is discharged."""
+    mods = [module] + list(more_props)
+    targets = mods + list(extra_modules) + list(drivers)
     ctx.checker_cmd = "cd %s && lake build %s && lake env lean <generated #print axioms audit>" % (LEAN, " ".join(targets))
     t = time.time()
     rc, out = sh(["lake", "build"] + targets, cwd=LEAN, timeout=3000)
     ctx.extra["lean_build_s"] = round(time.time() - t, 1)
-    path = os.path.join(LEAN, module.replace(".", "/") + ".lean")
-    src = strip_lean_comments(open(path).read())
-    ns = NS_RE.search(src)
-    ns = ns.group(1) if ns else ""
-    thms = THEOREM_RE.findall(src)
-    nex = len(EXAMPLE_RE.findall(src))
-    ctx.obligations += len(thms) + nex
-    ctx.theorems = thms
-    ctx.extra["non_vacuity_examples"] = nex
+    per = []
+    ctx.theorems = []
+    nex_all = 0
+    for mod in mods:
+        path = os.path.join(LEAN, mod.replace(".", "/") + ".lean")
+        src = strip_lean_comments(open(path).read())
+        ns = NS_RE.search(src)
+        ns = ns.group(1) if ns else ""
+        thms = THEOREM_RE.findall(src)
+        nex = len(EXAMPLE_RE.findall(src))
+        ctx.obligations += len(thms) + nex
+        ctx.theorems += thms
+        nex_all += nex
+        per.append((mod, ns, thms, nex))
+    ctx.extra["non_vacuity_examples"] = nex_all
     ok = True
     if rc != 0:
         ok = False
@@ -297,41 +305,44 @@ def lean_prove(ctx, module, drivers=(), extra_modules=()):
         ok = False
         ctx.broken.append({"forbidden_constructs": bad})
     # axiom audit
-    audit = "import %s\n" % module
-    if ns:
-        audit += "open %s\n" % ns
-    for th in thms:
-        audit += "#print axioms %s\n" % (("%s.%s" % (ns, th)) if ns else th)
-    os.makedirs(os.path.join(LEAN, ".audit"), exist_ok=True)
-    apath = os.path.join(LEAN, ".audit", module.split(".")[-1] + ".lean")
-    open(apath, "w").write(audit)
-    rc, out = sh(["lake", "env", "lean", apath], cwd=LEAN, timeout=1200)
     axioms_used = set()
-    audited = 0
-    cur = None
-    text = out.replace("\n ", " ")
-    for m in re.finditer(r"'([^']+)' (depends on axioms: \[([^\]]*)\]|does not depend on any axioms)", out.replace("\n", " ")):
-        audited += 1
-        if m.group(3):
-            for a in m.group(3).split(","):
-                axioms_used.add(a.strip())
-    extra_ax = sorted(a for a in axioms_used if a not in ALLOWED_AXIOMS)
+    for mod, ns, thms, nex in per:
+        audit = "import %s\n" % mod
+        if ns:
+            audit += "open %s\n" % ns
+        for th in thms:
+            audit += "#print axioms %s\n" % (("%s.%s" % (ns, th)) if ns else th)
+        os.makedirs(os.path.join(LEAN, ".audit"), exist_ok=True)
+        apath = os.path.join(LEAN, ".audit", mod.split(".")[-1] + ".lean")
+        open(apath, "w").write(audit)
+        rc, out = sh(["lake", "env", "lean", apath], cwd=LEAN, timeout=1200)
+        audited = 0
+        mod_ax = set()
+        for m in re.finditer(r"'([^']+)' (depends on axioms: \[([^\]]*)\]|does not depend on any axioms)", out.replace("\n", " ")):
+            audited += 1
+            if m.group(3):
+                for a in m.group(3).split(","):
+                    mod_ax.add(a.strip())
+        axioms_used |= mod_ax
+        extra_ax = sorted(a for a in mod_ax if a not in ALLOWED_AXIOMS)
+        mod_ok = True
+        if rc != 0 or audited != len(thms) or extra_ax:
+            ok = mod_ok = False
+            ctx.broken.append({"axiom_audit": {"module": mod, "rc": rc, "audited": audited, "expected": len(thms), "disallowed": extra_ax,
+                                               "tail": out.splitlines()[-5:]}})
+        if mod_ok and not bad:
+            ctx.discharged += len(thms) + nex
     ctx.extra["axioms_used"] = sorted(axioms_used)
-    if rc != 0 or audited != len(thms) or extra_ax:
-        ok = False
-        ctx.broken.append({"axiom_audit": {"rc": rc, "audited": audited, "expected": len(thms), "disallowed": extra_ax,
-                                           "tail": out.splitlines()[-5:]}})
-    if ok:
-        ctx.discharged += len(thms) + nex
     if ctx.tier == "thorough" and ok:
-        rc, out = sh(["lake", "env", "leanchecker", module], cwd=LEAN, timeout=3000)
-        ctx.extra["leanchecker_rc"] = rc
-        ctx.obligations += 1
-        if rc == 0:
-            ctx.discharged += 1
-        else:
-            ok = False
-            ctx.broken.append({"leanchecker": out.splitlines()[-5:]})
+        for mod in mods:
+            rc, out = sh(["lake", "env", "leanchecker", mod], cwd=LEAN, timeout=3000)
+            ctx.extra["leanchecker_rc"] = max(rc, ctx.extra.get("leanchecker_rc", 0))
+            ctx.obligations += 1
+            if rc == 0:
+                ctx.discharged += 1
+            else:
+                ok = False
+                ctx.broken.append({"leanchecker": [mod] + out.splitlines()[-5:]})
     return ok
 
 
